@@ -1,0 +1,62 @@
+//go:build verif
+
+package responsemanager
+
+import (
+	"github.com/libp2p/go-libp2p/core/peer"
+
+	"github.com/ipfs/go-graphsync"
+	gsmsg "github.com/ipfs/go-graphsync/message"
+)
+
+// VerifEntry is a snapshot of one entry of the in-progress response table (verification hook,
+// build tag verif; observation only).
+type VerifEntry struct {
+	ID           graphsync.RequestID
+	Peer         peer.ID
+	Request      gsmsg.GraphSyncRequest
+	State        graphsync.RequestState
+	Updates      int
+	PauseSignal  int
+	UpdateSignal int
+	ErrSignal    int
+}
+
+type verifTableMessage struct {
+	out chan<- []VerifEntry
+}
+
+func (m *verifTableMessage) handle(rm *ResponseManager) {
+	entries := make([]VerifEntry, 0, len(rm.inProgressResponses))
+	for id, r := range rm.inProgressResponses {
+		entries = append(entries, VerifEntry{
+			ID:           id,
+			Peer:         r.peer,
+			Request:      r.request,
+			State:        r.state,
+			Updates:      len(r.updates),
+			PauseSignal:  len(r.signals.PauseSignal),
+			UpdateSignal: len(r.signals.UpdateSignal),
+			ErrSignal:    len(r.signals.ErrSignal),
+		})
+	}
+	select {
+	case <-rm.ctx.Done():
+	case m.out <- entries:
+	}
+}
+
+// VerifTable returns a snapshot of the response table taken inside the manager's own loop, after
+// every message queued before this call has been handled.
+func VerifTable(rm *ResponseManager) []VerifEntry {
+	out := make(chan []VerifEntry, 1)
+	if err := rm.send(&verifTableMessage{out}, nil); err != nil {
+		return nil
+	}
+	select {
+	case <-rm.ctx.Done():
+		return nil
+	case entries := <-out:
+		return entries
+	}
+}
